@@ -197,6 +197,10 @@ abbrev K31 (s : S) : Prop := s.rs.isSome = true → s.up.isSome = true
 abbrev K32 (c : Cfg) (s : S) : Prop := s.cleaned = false → c.oneway = true →
   upPhase s.phase = false ∧ s.phase ≠ .WaitNotify ∧ s.phase ≠ .Retry
 
+/-- K33: a stream is only cleaned after a complete reply, after the client went away, or when it is one-way -/
+abbrev K33 (c : Cfg) (s : S) : Prop := s.cleaned = true →
+  (snd s.trace).ended = true ∨ s.downReset = true ∨ c.oneway = true
+
 /-- the inductive invariant -/
 structure Inv (c : Cfg) (ar aq : Nat) (s : S) : Prop where
   k0 : K0 s
@@ -232,12 +236,13 @@ structure Inv (c : Cfg) (ar aq : Nat) (s : S) : Prop where
   k30 : K30 s
   k31 : K31 s
   k32 : K32 c s
+  k33 : K33 c s
 
 /-- executable form for the model checker: the clauses in order -/
 def invList (c : Cfg) (ar aq : Nat) (s : S) : List Bool :=
   [ decide (K0 s), decide (K1 s), decide (K2 s), decide (K3 s), decide (K4 s), decide (K5 s), decide (K6 s), decide (K7 s),
     decide (K8 s), decide (K9 c ar s), decide (K10 c aq s), decide (K11 s), decide (K12 s), decide (K13 s), decide (K14 s),
-    decide (K15 s), decide (K16 s), decide (K17 s), decide (K18 c s), decide (K19 s), decide (K20 c s), decide (K21 c s), decide (K22 c s), decide (K23 s), decide (K24 c s), decide (K25 c s), decide (K26 s), decide (K27 s), decide (K28 s), decide (K29 c s), decide (K30 s), decide (K31 s), decide (K32 c s) ]
+    decide (K15 s), decide (K16 s), decide (K17 s), decide (K18 c s), decide (K19 s), decide (K20 c s), decide (K21 c s), decide (K22 c s), decide (K23 s), decide (K24 c s), decide (K25 c s), decide (K26 s), decide (K27 s), decide (K28 s), decide (K29 c s), decide (K30 s), decide (K31 s), decide (K32 c s), decide (K33 c s) ]
 
 def inv (c : Cfg) (ar aq : Nat) (s : S) : Bool := (invList c ar aq s).all id
 
